@@ -112,10 +112,30 @@ def run(run, args):
                     "children_that_died": sum(1 for r in recs if r["died"]), "address_sanitizer": asan_note,
                     "traces_validated_against_impl": len(recs) - len(res[0])})
     run.samples = [{"id": r["id"], "ops": [{k: v for k, v in o.items() if k != "text"} for o in r["ops"][:8]]} for r in recs[:3]]
+    # allocation accounting (counting allocator in the child, sampled around each call into the binding): a call that reports
+    # an error, and every read, leaves the heap as it found it; once every handle has been freed nothing the library
+    # allocated during the sequence is still live
+    leaks = []
+    for r in recs:
+        if r["died"]:
+            continue
+        tb = sum(o.get("dbytes", 0) for o in r["obs"]); tk = sum(o.get("dblocks", 0) for o in r["obs"])
+        all_freed = bool(r["obs"]) and all(x is None for x in r["obs"][-1].get("snap", [None]))
+        per_call = [i for i, o in enumerate(r["obs"]) if (o.get("code", 0) != 0 or o["op"] in ("get", "mass")) and (o.get("dbytes", 0) != 0 or o.get("dblocks", 0) != 0)]
+        if per_call or (all_freed and (tb != 0 or tk != 0)):
+            leaks.append({"id": r["id"], "calls_leaving_memory_behind": per_call[:5], "live_bytes_after_all_freed": tb, "live_blocks_after_all_freed": tk})
+    run.cov["allocation_accounting"] = {"sequences": len(recs), "leaking": len(leaks),
+                                        "rule": "bytes/blocks live in the child sampled immediately before and after each call into the binding"}
+    run.oblige("allocation accounting: failing calls and reads leave the heap unchanged; nothing stays allocated once every handle is freed", not leaks,
+               "%d sequences" % len(leaks))
     run.oblige("case files evaluate", not errors, errors[0][1][-300:] if errors else "")
     run.oblige("correspondence: handle-table model = the real extern \"C\" functions after every call", not res[0], "%d sequences differ" % len(res[0]))
     run.oblige("every call returned 0 with the Rust effect or non-zero with the handle set untouched; no abort; all handles freed", not res[1], "")
     broken = standard_proof_obligations(run, "C17", THEOREMS) if THEOREMS else []
+    if leaks:
+        violation(run, {"failing_input": dict(by_id[leaks[0]["id"]], accounting=leaks[0]),
+                        "what": "a call into the binding that reported an error (or a read) left memory allocated, or memory allocated by the "
+                                "library is still live after every handle was freed (a leak no later call can observe)", "all": leaks[:20]})
     if errors:
         violation(run, {"broken": "case file does not evaluate", "detail": errors[0][1]}, nofail=True)
     if res[1]:
